@@ -1351,10 +1351,6 @@ func buildProxyMetadataResponse(meta *metadata.ClusterMetadata, correlationID in
 	}}
 	topics := make([]protocol.MetadataTopic, 0, len(meta.Topics))
 	for _, topic := range meta.Topics {
-		if topic.ErrorCode != protocol.NONE {
-			topics = append(topics, topic)
-			continue
-		}
 		partitions := make([]protocol.MetadataPartition, 0, len(topic.Partitions))
 		for _, part := range topic.Partitions {
 			partitions = append(partitions, protocol.MetadataPartition{
